@@ -106,6 +106,26 @@ func runC10(c *Ctx) {
 	}
 	s := NewSys(ics, false, false, extra...)
 	pool := gen.Hostile.Table(r, r.Range(6, 20))
+	if r.Chance(1, 6) {
+		// depth: routes that sit 17-26 nodes below the root - a chain of routes each extending the one before (every
+		// registration splits off one more node), and one pattern with that many parameters
+		deep := ""
+		for i, n := 0, r.Range(17, 26); i < n; i++ {
+			deep += "/" + string(rune('a'+i))
+			if i%3 == 2 {
+				deep += "{d" + string(rune('a'+i)) + "}"
+			}
+			pool = append(pool, deep)
+			s.Handle(deep, []string{"GET"}, Via{})
+		}
+		many := "/dp"
+		for i, n := 0, r.Range(17, 24); i < n; i++ {
+			many += "/{q" + string(rune('a'+i)) + "}"
+		}
+		pool = append(pool, many)
+		s.Handle(many, []string{"GET"}, Via{})
+		c.Class("routes_more_than_sixteen_nodes_deep")
+	}
 	for i := r.Range(5, 25); i > 0; i-- {
 		live := s.LivePatterns()
 		if len(live) > 0 && r.Chance(1, 4) {
